@@ -7,7 +7,9 @@
 (*   start(c)   the caller begins: it allocates an id, registers, writes (the id   *)
 (*              is not known yet: a placeholder stands in the pending map)         *)
 (*   sent(c,id) the server read c's request: ids must be distinct                  *)
-(*   srv(f)     the server writes frame f                                          *)
+(*   srv(f)     the server writes frame f; a close with tag 1 is a reset (requests *)
+(*              unread / still arriving, or SO_LINGER 0): frames the client has    *)
+(*              not read yet may be discarded (silent ClientMux!NetReset)          *)
 (*   ret(c,..)  ok: the response delivered to c must be c's own (Correlated);      *)
 (*              err: only if the connection failed / the writer is shut;           *)
 (*              timeout / cancelled: the caller gave up (its entry is removed);    *)
@@ -89,7 +91,7 @@ TAfter == /\ l <= Len(Rec) /\ E.ev = "after"
           /\ UNCHANGED <<nextId, pending, pc, cid, chan, result, c2s, s2c, seen, answered, junk, cur, writerShut, reader, notes, subEnded, used>> /\ l' = l + 1
 
 \* silent reader steps (ClientMux's own actions)
-Silent == (M!Recv \/ M!Dispatch \/ M!Fail1 \/ M!Fail2) /\ UNCHANGED <<used, l>>
+Silent == (M!Recv \/ M!Dispatch \/ M!Fail1 \/ M!Fail2 \/ M!NetReset) /\ UNCHANGED <<used, l>>
 Next == TReset \/ TStart \/ TSent \/ TSrv \/ TRet \/ TDupReg \/ TNote \/ TSubEnd \/ TAfter \/ Silent
 Spec == Init /\ [][Next]_tvars
 
